@@ -1,3 +1,5 @@
 //! Shared helpers for /verif harness binaries.
 pub mod common;
 pub mod prog;
+pub mod airsym;
+pub mod tables;
